@@ -372,8 +372,8 @@ func (m *Machine) pushFrame(g *G, fn *ssa.Function, env []Value, args []Value, c
 	if len(fn.Blocks) == 0 {
 		m.fail("unsupported", "call of body-less function "+fn.String())
 	}
-	if len(g.frames) > 400 {
-		m.fail("unwind", "call depth > 400 in "+fn.String())
+	if len(g.frames) > 2000 {
+		m.fail("unwind", "call depth > 2000 in "+fn.String())
 	}
 	fr := &Frame{fn: fn, locals: make(map[ssa.Value]Value, 16), env: env, call: call}
 	if len(args) != len(fn.Params) {
